@@ -331,6 +331,9 @@ pub struct Epochs {
     init_hooks: Vec<usize>,
     burst: u64,
     burst_op: u8,
+    /// scripted long history: one jump of ~300 durations, then creation after creation in that block (both
+    /// clocks), so that epoch ids pass 255 / 256
+    marathon: bool,
 }
 
 #[derive(Clone, Debug)]
@@ -763,6 +766,14 @@ impl Engine for Epochs {
                 _ => rng.next(),
             };
             self.n_ops = rng.range(10, 40);
+            self.marathon = rng.chance(1, 30);
+            let (t0, mid0, mstart, mdur, mgen, ddur, dgen) = if self.marathon {
+                self.n_ops = 640;
+                let t0 = 1_571_797_419_879_305_533u64;
+                (t0, rng.below(3), t0, DAY + rng.below(2), t0, DAY, t0 + rng.below(2))
+            } else {
+                (t0, mid0, mstart, mdur, mgen, ddur, dgen)
+            };
             let nh = rng.below(4) as usize;
             let mut ks: Vec<usize> = vec![0, 1, 2];
             // random order of registration
@@ -792,6 +803,14 @@ impl Engine for Epochs {
         if p.m && (step as usize) <= self.init_hooks.len() {
             let k = self.init_hooks[step as usize - 1];
             return Some(format!("{height0} {last} owner m_add_hook {k}"));
+        }
+        if self.marathon && p.m && p.d {
+            // the first op jumps ~310 durations ahead; from then on every creation in that block is due
+            let far = (p.mgen.max(p.dgen) as u128 + 310 * (p.mdur.max(p.ddur) as u128)).min(u64::MAX as u128) as u64;
+            let t = last.max(far);
+            let height = if t != last { height0 + 1 } else { height0 };
+            let who = *rng.pick(&SENDERS);
+            return Some(if step % 2 == 0 { format!("{height} {t} {who} m_create") } else { format!("{height} {t} {who} d_create") });
         }
         // ---- choose the op
         let kind: u8 = if self.burst > 0 && rng.chance(4, 5) {
